@@ -62,6 +62,7 @@ def cases() -> Any:
         # how the execution is driven: the worker's Receiver (ackable message) or the bundled InMemoryBroker, whose own
         # propagate_exceptions / await_inplace arguments configure the receiver it embeds
         "via": st.sampled_from(["receiver", "receiver", "inmemory", "inmemory_inplace"]),
+        "startup": st.booleans(),
     }))
 
 
@@ -102,6 +103,8 @@ def run_case(c: Dict[str, Any]) -> Outcome:
 
             b = InMemoryBroker(propagate_exceptions=c["propagate"], await_inplace=(via == "inmemory_inplace"), sync_tasks_pool_size=1)
             cleanup_brokers.append(b)
+            if c.get("startup"):
+                await b.startup()       # what applications (and the docs' testing guide) do before sending
         b.result_backend = RB(tr)
         kind = {"ret": "ret", "raise": "raise", "base": "base", "timeout": "ret"}[c["outcome"]]
         mod, task, src = dg.build(nodes, tdeps, {"kind": kind, "cleanup": c.get("cleanup", 0)}, LOG)
